@@ -43,11 +43,12 @@ func chanOpsOf(fn *ssa.Function) []chanOp {
 }
 
 // chanRole classifies a channel value by where it lives.
-//   done/terminate : closed-only channels (struct{} element) used as signals
-//   ctx            : result of (context.Context).Done()
-//   timer          : time.Timer.C / time.After / time.Ticker.C
-//   reply          : a channel created by the requester and carried inside the request
-//   request/error  : an unbuffered field channel of a long-lived object
+//
+//	done/terminate : closed-only channels (struct{} element) used as signals
+//	ctx            : result of (context.Context).Done()
+//	timer          : time.Timer.C / time.After / time.Ticker.C
+//	reply          : a channel created by the requester and carried inside the request
+//	request/error  : an unbuffered field channel of a long-lived object
 func chanRole(v ssa.Value) string {
 	switch x := v.(type) {
 	case *ssa.Call:
@@ -393,20 +394,20 @@ type goRow struct {
 
 // goTable: one row per `go` statement, keyed by "spawner -> spawned".
 var goTable = map[string]goRow{
-	"(*Server).Start -> (*Server).run":                               {"wg", "", "select with s.ctx.Done(); Server.Close cancels then wg.Wait"},
-	"(*serverTCPListener).initialize -> (*serverTCPListener).run":    {"wg", "", "blocks in Accept; Server.run closes the listener"},
-	"(*ServerConn).initialize -> (*ServerConn).run":                  {"wg+done", "ServerSession.run", "select with sc.ctx.Done(); the session waits on sc.done before announcing its own close"},
-	"(*serverConnReader).initialize -> (*serverConnReader).run":      {"done", "serverConnReader.wait", "blocks in conn.Read; ServerConn.run closes the socket then waits"},
-	"(*ServerSession).initialize -> (*ServerSession).run":            {"wg", "", "select with ss.ctx.Done() (child of s.ctx)"},
-	"(*serverUDPListener).initialize -> (*serverUDPListener).run":    {"done", "serverUDPListener.close", "blocks in ReadFrom; close() closes the socket then waits"},
-	"(*Client).Start -> (*Client).run":                               {"done", "Client.Close", "select with c.ctx.Done()"},
-	"(*clientReader).start -> (*clientReader).run":                   {"done", "clientReader.close", "blocks in conn.Read; doClose closes the socket first"},
-	"(*clientUDPListener).start -> (*clientUDPListener).run":         {"done", "clientUDPListener.stop", "blocks in ReadFrom; stop() sets a past deadline then waits"},
-	"newClientTunnelHTTP -> newClientTunnelHTTP$3":                   {"done-local", "newClientTunnelHTTP", "ctx watcher; terminate channel closed by defer, joined by deferred receive"},
-	"newClientTunnelHTTP -> newClientTunnelHTTP$6":                   {"done-local", "newClientTunnelHTTP", "ctx watcher; terminate channel closed by defer, joined by deferred receive"},
-	"(*Processor).Start -> (*Processor).run":                         {"done", "Processor.Close", "blocks in RingBuffer.Pull; Close closes the ring then waits iff running"},
-	"(*Receiver).Initialize -> (*Receiver).run":                      {"done", "Receiver.Close", "ticker select with terminate"},
-	"(*Sender).Initialize -> (*Sender).run":                          {"done", "Sender.Close", "two selects with terminate"},
+	"(*Server).Start -> (*Server).run":                            {"wg", "", "select with s.ctx.Done(); Server.Close cancels then wg.Wait"},
+	"(*serverTCPListener).initialize -> (*serverTCPListener).run": {"wg", "", "blocks in Accept; Server.run closes the listener"},
+	"(*ServerConn).initialize -> (*ServerConn).run":               {"wg+done", "ServerSession.run", "select with sc.ctx.Done(); the session waits on sc.done before announcing its own close"},
+	"(*serverConnReader).initialize -> (*serverConnReader).run":   {"done", "serverConnReader.wait", "blocks in conn.Read; ServerConn.run closes the socket then waits"},
+	"(*ServerSession).initialize -> (*ServerSession).run":         {"wg", "", "select with ss.ctx.Done() (child of s.ctx)"},
+	"(*serverUDPListener).initialize -> (*serverUDPListener).run": {"done", "serverUDPListener.close", "blocks in ReadFrom; close() closes the socket then waits"},
+	"(*Client).Start -> (*Client).run":                            {"done", "Client.Close", "select with c.ctx.Done()"},
+	"(*clientReader).start -> (*clientReader).run":                {"done", "clientReader.close", "blocks in conn.Read; doClose closes the socket first"},
+	"(*clientUDPListener).start -> (*clientUDPListener).run":      {"done", "clientUDPListener.stop", "blocks in ReadFrom; stop() sets a past deadline then waits"},
+	"newClientTunnelHTTP -> newClientTunnelHTTP$3":                {"done-local", "newClientTunnelHTTP", "ctx watcher; terminate channel closed by defer, joined by deferred receive"},
+	"newClientTunnelHTTP -> newClientTunnelHTTP$6":                {"done-local", "newClientTunnelHTTP", "ctx watcher; terminate channel closed by defer, joined by deferred receive"},
+	"(*Processor).Start -> (*Processor).run":                      {"done", "Processor.Close", "blocks in RingBuffer.Pull; Close closes the ring then waits iff running"},
+	"(*Receiver).Initialize -> (*Receiver).run":                   {"done", "Receiver.Close", "ticker select with terminate"},
+	"(*Sender).Initialize -> (*Sender).run":                       {"done", "Sender.Close", "two selects with terminate"},
 }
 
 func goTableRule(c *Ctx, rule string) {
